@@ -309,12 +309,14 @@ package dbft
 //@ pred prep() = implies(rsor(), forall(i, 0, NN(), implies(self.PreparationPayloads[i] != nil && i != self.PrimaryIndex
 //@        && self.PreparationPayloads[i].Type() == PrepareResponseType, self.PreparationPayloads[i].GetPrepareResponse().PreparationHash() == self.PreparationPayloads[self.PrimaryIndex].Hash())))
 //@        && implies(rsor(), self.PreparationPayloads[self.PrimaryIndex].ViewNumber() == self.ViewNumber)
-// (last conjunct of prep: the stored proposal is one made for the node's CURRENT view - views v and v+N have the same primary)
+// (last conjunct of prep and of prop: the stored proposal is one made for the node's CURRENT view - views v and v+N have the same
+// primary; it is stated in both because prep carries C04 and prop carries C02)
 // PROP: the proposal fields of the context are those of the stored proposal.
 //@ pred prop() = implies(rsor() && self.PreparationPayloads[self.PrimaryIndex].Type() == PrepareRequestType,
 //@        self.Timestamp == self.PreparationPayloads[self.PrimaryIndex].GetPrepareRequest().Timestamp()
 //@        && self.Nonce == self.PreparationPayloads[self.PrimaryIndex].GetPrepareRequest().Nonce()
 //@        && sametable(self.TransactionHashes, self.PreparationPayloads[self.PrimaryIndex].GetPrepareRequest().TransactionHashes()))
+//@        && implies(rsor(), self.PreparationPayloads[self.PrimaryIndex].ViewNumber() == self.ViewNumber)
 // VERC / VERP: stored current-view commits (pre-commits) verify against the header (pre-block) once it exists,
 // and none is waiting unverified once the header (pre-block) can be built.
 //@ pred verC(i) = self.header.Verify(self.Validators[i], self.CommitPayloads[i].GetCommit().Signature()) == nil
@@ -352,7 +354,7 @@ package dbft
 //@   ensures [C03,C01] @said said()
 //@   ensures [C11] @wf wf()
 //@   ensures [C11,C02,C04,C07,C03] @slot slot()
-//@   ensures [C04,C02] @prep prep()
+//@   ensures [C04] @prep prep()
 //@   ensures [C02,C15] @prop prop()
 //@   ensures [C02,C01] @verc verc()
 //@   ensures [C02,C01,C05] @tip tip()
@@ -363,7 +365,7 @@ package dbft
 //@   requires [C03,C01] @said said()
 //@   ensures  [C03,C01] @lock implies(old(locked()), self.ViewNumber == old(self.ViewNumber) && implies(old(gCommit) != nil, gCommit == old(gCommit)) && implies(old(gPreCommit) != nil, gPreCommit == old(gPreCommit)))
 //@   ensures  [C03,C01] @sameViewSameWord implies(self.ViewNumber == old(self.ViewNumber) && old(gPrep) != nil, gPrep == old(gPrep))
-//@   requires [C04,C02] @prep prep()
+//@   requires [C04] @prep prep()
 //@   requires [C02,C15] @prop prop()
 //@   requires [C02,C01] @verc verc()
 //@   requires [C02] @tip tip()
@@ -659,7 +661,7 @@ package dbft
 //@   requires [C04] @evidence hasAllTx() && gVerified != nil && (gVerified == self.block || gVerified == self.preBlock)
 //@   ensures [C11] @wf wf()
 //@   ensures [C11,C02,C04,C07,C03] @slot slot()
-//@   ensures [C04,C02] @prep prep()
+//@   ensures [C04] @prep prep()
 //@   ensures forall(i, 0, NN(), implies(i != self.MyIndex, self.PreparationPayloads[i] == old(self.PreparationPayloads[i])))
 //@   ensures gBroadcasts == old(gBroadcasts) + 1
 //@   ensures [C04] @names self.PreparationPayloads[self.MyIndex] != nil && gLastBcast == self.PreparationPayloads[self.MyIndex]
